@@ -140,31 +140,68 @@ Definition hclass_eqb (a b : hclass) : bool :=
   | _, _ => false
   end.
 
+(** a literal of the case stands for the literal of the template it is a prefix of (the generated
+    cases give the whole literal; hand-written ones only what tells the shapes of a function apart) *)
+Fixpoint is_prefix (p b : bytes) : bool :=
+  match p, b with
+  | [], _ => true
+  | x :: p', y :: b' => N.eqb x y && is_prefix p' b'
+  | _ :: _, [] => false
+  end.
+
 Fixpoint shape_matches (t : list elem) (es : list case_elem) : bool :=
   match t, es with
   | [], [] => true
-  | Lit b :: t', (None, b') :: es' => bytes_eqb b b' && shape_matches t' es'
+  | Lit b :: t', (None, p) :: es' => is_prefix p b && shape_matches t' es'
   | Hole c :: t', (Some c', _) :: es' => hclass_eqb c c' && shape_matches t' es'
   | _, _ => false
   end.
 
-Definition case_args (es : list case_elem) : list bytes :=
-  map (fun e => match fst e with None => snd e | Some c => class_value c (snd e) end) es.
+(** the case gives every literal in full *)
+Fixpoint shape_exact (t : list elem) (es : list case_elem) : bool :=
+  match t, es with
+  | [], [] => true
+  | Lit b :: t', (None, p) :: es' => bytes_eqb p b && shape_exact t' es'
+  | Hole _ :: t', _ :: es' => shape_exact t' es'
+  | _, _ => false
+  end.
+
+(** the array of the call: the literals of the template, the holes filled from the case *)
+Fixpoint shape_args (t : list elem) (es : list case_elem) : list bytes :=
+  match t, es with
+  | Lit b :: t', _ :: es' => b :: shape_args t' es'
+  | Hole c :: t', e :: es' => class_value c (snd e) :: shape_args t' es'
+  | _, _ => []
+  end.
+
+(** the first generated template of the function that has the shape of the case
+    (false = net_writen site, true = net_write_multiline site) *)
+Definition resolve_tpl (func : bytes) (es : list case_elem) : option (bool * list elem) :=
+  match find (fun t => shape_matches t es) (templates_of writen_templates func) with
+  | Some t => Some (false, t)
+  | None =>
+      match find (fun t => shape_matches t es) (templates_of multiline_templates func) with
+      | Some t => Some (true, t)
+      | None => None
+      end
+  end.
+
+Definition resolve (func : bytes) (es : list case_elem) : option (bool * list bytes) :=
+  match resolve_tpl func es with
+  | Some (ml, t) => Some (ml, shape_args t es)
+  | None => None
+  end.
 
 Inductive site_result : Type :=
 | NoShape                                   (* no generated template of that function has this shape *)
 | Wrote (r : Cres (list bytes)).
 
 Definition site_model (func : bytes) (es : list case_elem) : site_result :=
-  let args := case_args es in
-  if existsb (fun t => shape_matches t es) (templates_of writen_templates func) then
-    match args with
-    | s0 :: parts => Wrote (net_writen s0 parts)
-    | [] => NoShape
-    end
-  else if existsb (fun t => shape_matches t es) (templates_of multiline_templates func) then
-    Wrote (net_write_multiline args)
-  else NoShape.
+  match resolve func es with
+  | Some (false, s0 :: parts) => Wrote (net_writen s0 parts)
+  | Some (true, args) => Wrote (net_write_multiline args)
+  | _ => NoShape
+  end.
 
 (** handlers that answer with a fixed literal: the literal replies of that function *)
 Definition literal_model (func : bytes) : list bytes :=
@@ -187,3 +224,11 @@ Definition class_of_letter (l : N) : option hclass :=
   | 78%N => Some HNumCRLF     (* N *)
   | _ => None
   end.
+
+(** ** the two functions as they were before the proposed fixes (for the refutation only) *)
+Definition dnstxt_orig (raw : bytes) : option bytes :=
+  match raw with [] => None | _ => Some (cstr raw) end.
+
+(** netmsg[1] = rejmsg; net_writen(netmsg + !!codebeg) *)
+Definition cb_nomail_orig (lit raw : bytes) : Cres (list bytes) :=
+  if nomail_codebeg raw then net_writen raw [] else net_writen lit [raw].
